@@ -132,6 +132,7 @@ def witness(cfg: CFG, prev, at: Tuple[int, str], last_edge: Tuple[int, str]) -> 
 # ---------------------------------------------------------------------------
 def check(ctx):
     repo = ctx.repo
+    ctx.rule("R05.12", "the per-step dt record and the clock use the dt of the accepted solve (shared with C12 R12.3/R12.4)", 5)
     ctx.rule("R05.11", "per-step records are concatenated in numeric step order (never in the lexicographic order of the group names)", 2)
     ctx.rule("R05.1", "label/content typestate on the CFG of _run_stage: every frame is saved with exactly as many updates "
                       "applied as its step label says, on every path incl. KeyboardInterrupt from the update and the writer", 1)
@@ -178,6 +179,12 @@ def check(ctx):
     records(ctx, frs)
     ranks(ctx)
     thermalisation(ctx)
+    from ..report import Shared
+    from . import c12
+    sh = Shared(ctx, {"R12.3": "R05.12", "R12.4": "R05.12"},
+                consequence="the recorded dt (and hence the frame times, which are its prefix sums) is not the step that was actually taken")
+    c12.retry_loop(sh)
+    c12.step_reported(sh, repo.func(SOLVER, "TDGLSolver.update"))
     frame_order(ctx)
     times_typing(ctx)
     zero_init(ctx)
